@@ -142,11 +142,16 @@ fn parse_main(args: &[String]) -> i32 {
     let mut out = util::create(&args[1]);
     writeln!(out, "{}", json!({"ev":"header","prop":"C19","half":"parser","n":scen.len()})).unwrap();
     for sc in scen.iter() {
-        let k = sc["k"].as_u64().unwrap_or(10) as u32;
+        let mut k = sc["k"].as_u64().unwrap_or(10) as u32;
         for w in sc["words"].as_array().unwrap() {
             let word: Vec<u8> = w.as_array().unwrap().iter().map(|b| b.as_u64().unwrap() as u8).collect();
             let c = ParseCircuit { expr: sc["lib"].clone(), word: word.clone() };
-            let r = crate::gad::run_game(&c, k, None);
+            let mut r = crate::gad::run_game(&c, k, None);
+            // the transition table of a large automaton may not fit: enlarge the circuit (not a verdict)
+            while r.status != "sat" && k < 15 && (r.detail.contains("usable_rows") || r.detail.contains("NotEnoughRows")) {
+                k += 1;
+                r = crate::gad::run_game(&c, k, None);
+            }
             let exposed: Vec<u64> = r.exposed.iter().map(|x| {
                 let v = crate::gad::nat_of_f(x);
                 if v.len() > 4 { u32::MAX as u64 } else { v.iter().enumerate().map(|(i, d)| (*d as u64) << (8 * i)).sum::<u64>() }
